@@ -85,7 +85,7 @@ def ob_expected_verifier(report, prop):
         def m_delegate(ex, p, call, k):
             p.events.append(Event('delegate', 'CertVerifier::verify_server_cert', tuple(ex.deref(p, a) if isinstance(a, Ptr) else a for a in call.args)))
             k(p, Sym('delegate_result', 'Result<ServerCertVerified, rustls::Error>'))
-        ex = e2.executor('anemo', [(r'(^|::)peer_id_from_certificate$', m_pid), (r'<CertVerifier as ServerCertVerifier>::verify_server_cert$', m_delegate)], max_depth=2)
+        ex = e2.executor('anemo', [('role:peer_id_from_certificate', m_pid), (r'<CertVerifier as ServerCertVerifier>::verify_server_cert$', m_delegate)], max_depth=2)
         fns = [f for f in find_fns(ex.prog, r'^crypto::<impl>::verify_server_cert$') if 'ExpectedCertVerifier' in f.decl.get(f.args[0], '')]
         if len(fns) != 1:
             return ob.done([ex], 'inconclusive', 'ExpectedCertVerifier::verify_server_cert not found', paths=0)
@@ -215,7 +215,7 @@ def _run_cert_verifier(which):
         n = p.seq('tryname')
         src = ex.deref(p, call.args[0]) if isinstance(call.args[0], Ptr) else call.args[0]
         k(p, Sym(f'parsed_name{n}', call.retty).with_ov('from', ('ServerName::try_from', (src,))))
-    models = [(r'(^|::)prepare_for_self_signed$', m_prepare), (r'EndEntityCert::verify_for_usage$', m_verify_usage),
+    models = [('role:prepare_for_self_signed', m_prepare), (r'EndEntityCert::verify_for_usage$', m_verify_usage),
               (r'verify_is_valid_for_subject_name$', m_valid_for_name), (r'VerifiedPath::end_entity$', m_end_entity),
               (r'<ServerName as TryFrom>::try_from$', m_try_from)] + IT.ITER_MODELS
     ex = e2.executor('anemo', models, max_depth=3, unroll=3)
@@ -375,7 +375,7 @@ def ob_peer_id_extraction(report, prop):
         ex = e2.executor('anemo', [(r'X509Certificate.*::from_der$|FromDer>::from_der$', m_from_der), (r'::public_key$', m_public_key),
                                    (r'DecodePublicKey>::from_public_key_der$', m_from_spki), (r'PublicKeyBytes::to_bytes$', m_to_bytes),
                                    (r'CertificateDer as AsRef>::as_ref$|as Deref>::deref$', lambda ex_, p_, call, k: k(p_, call.args[0]))], max_depth=2)
-        fn = find_fn(ex.prog, r'^peer_id_from_certificate$')
+        fn = e2.role_fn(ex.prog, 'peer_id_from_certificate')[0]
         p = Path()
         p.mem[('H', 'cert', 'CertificateDer')] = Sym('cert', 'CertificateDer')
         res = ex.run(fn, [Ptr(('H', 'cert', 'CertificateDer'))], p)
@@ -429,7 +429,7 @@ def ob_connection_identity(report, prop):
             v = ex.deref(p, call.args[0])
             p.events.append(Event('chain-index', 'Vec::pop', (v, Str('last'))))
             k(p, Sym(f'{vname(v)}[last]', 'Option<CertificateDer>'))
-        ex = e2.executor('anemo', [(r'(^|::)peer_id_from_certificate$', m_pid), (r'quinn::Connection::peer_identity$', m_peer_identity), (r'::downcast$', m_downcast),
+        ex = e2.executor('anemo', [('role:peer_id_from_certificate', m_pid), (r'quinn::Connection::peer_identity$', m_peer_identity), (r'::downcast$', m_downcast),
                                    (r'<Vec as Index>::index$', m_vec_index), (r'Vec::(pop|last|remove|swap_remove)$', m_pop),
                                    (r'Box as Deref>::deref$', lambda ex_, p_, call, k: k(p_, Ptr(('H', vname(ex_.deref(p_, call.args[0])) + '.boxed', ''))))], max_depth=2)
         fn = find_method(ex.prog, 'Connection', 'new', file_re=r'anemo/src/connection\.rs')
